@@ -179,7 +179,8 @@ class C16(Prop):
             "before/after; non-trivial = case with >= 2 traces of >= 2 accepted steps; distinct by trace contents")
     batch = 8
     trusted_base = ["a freshly forked child of a process that imported card_utils but never played stands for a fresh interpreter"]
-    assumptions = ["inputs are passed by value (fresh lists per game object)"]
+    assumptions = ["inputs are passed by value (fresh lists per game object), except the blinds: in the sequential pass all tables of a "
+                   "case with equal blinds are seated from one list object (a constructor must not write to its arguments)"]
 
     def setup(self):
         super().setup()
@@ -255,11 +256,15 @@ class C16(Prop):
         out["fresh"] = self.zy.run(traces)
         # (b) batched, shuffled order, in this long-lived worker (which has played many games before)
         res = [None] * len(traces)
-        for i in case["order"]:
-            try:
-                res[i] = run_trace(traces[i])
-            except Exception as e:
-                res[i] = {"exc": type(e).__name__}
+        poker.SHARED = {}       # tables with equal blinds are seated from ONE blinds list object in this pass (poker.cfg_kwargs)
+        try:
+            for i in case["order"]:
+                try:
+                    res[i] = run_trace(traces[i])
+                except Exception as e:
+                    res[i] = {"exc": type(e).__name__}
+        finally:
+            poker.SHARED = None
         out["batched"] = res
         # (c) interleaved step by step
         rng = random.Random(case["iseed"])
